@@ -101,6 +101,17 @@ def prep_events_forwarding(pe):
                     if isinstance(v_, ast.BoolOp) and isinstance(v_.op, ast.Or) and isinstance(v_.values[0], ast.Name):
                         v_ = v_.values[0]
                     fwd.add(unparse(v_))
+        if isinstance(n, ast.Assign) and unparse(n.targets[0]) == "events":
+            # `events = list(x) if x else []` / `list(x or ())` / `list(x)`
+            v_ = n.value
+            if isinstance(v_, ast.IfExp) and isinstance(v_.orelse, (ast.List, ast.Tuple)) and not v_.orelse.elts:
+                v_ = v_.body
+            if isinstance(v_, ast.Call) and call_name(v_) in ("list", "tuple") and len(v_.args) == 1:
+                a_ = v_.args[0]
+                if isinstance(a_, ast.BoolOp) and isinstance(a_.op, ast.Or) and isinstance(a_.values[0], ast.Name):
+                    a_ = a_.values[0]
+                if isinstance(a_, ast.Name):
+                    fwd.add(a_.id)
         if isinstance(n, ast.AugAssign) and unparse(n.target) == "events" and isinstance(n.op, ast.Add):
             v_ = n.value
             if isinstance(v_, ast.Call) and call_name(v_) in ("list", "tuple") and v_.args:
